@@ -290,7 +290,10 @@ pub fn mirror_check(cfg: &Cfg, reqf: &[u8], d: &Dec) -> Check {
 fn port_check(what: &str, got: u16, dport: u16, payload: &[u8], reply_payload: &[u8]) -> Check {
     // sole exception: a STUN binding request with CHANGE-REQUEST/change-port => dport + 1.
     // It only applies where the STUN responder answered (the reply is a binding success response).
-    let stun_like = payload.len() >= 20 && payload[0] == 0 && payload[1] == 1 && reply_payload.len() >= 20 && reply_payload[0] == 1 && reply_payload[1] == 1;
+    // (the two most significant bits of the message type are not part of class or method; the
+    // responder ignores them, and the statement does not say what a message with those bits set
+    // is, so such a message with class request / method binding counts as a STUN request here)
+    let stun_like = payload.len() >= 20 && payload[0] & 0x3f == 0 && payload[1] == 1 && reply_payload.len() >= 20 && reply_payload[0] == 1 && reply_payload[1] == 1;
     let expect: Vec<u16> = if stun_like {
         match stun_change_ports(payload) {
             Some((0, true)) => vec![dport],
